@@ -1,7 +1,7 @@
 """C03 — every value is a fixed point of its definition (premises P1-P3)."""
 from ..core import get_core
 from .. import corerules as R
-from ..linerules import l1_access, l2_effects
+from ..linerules import l1_access, l2_effects, l2b_shared_iterators
 
 
 def check(tree, rep, tier='quick', seed=0):
@@ -18,6 +18,7 @@ def check(tree, rep, tier='quick', seed=0):
     core = get_core(tree)
     l1_access(tree, rep)
     l2_effects(tree, rep)
+    l2b_shared_iterators(tree, rep)
     R.k6_single_value_writer(core, rep)
     R.k7_missing_key_raises(core, rep)
     R.k8_input_store_writes(core, rep)
